@@ -18,6 +18,7 @@ import (
 	"strconv"
 	"strings"
 	"sync"
+	"syscall"
 	"testing"
 	"time"
 
@@ -313,6 +314,8 @@ func child(sp Spec) {
 		os.Exit(4)
 	}
 	debug.SetMaxStack(256 << 20)
+	// backstop behind the watchdog: the child can never take the machine down
+	_ = syscall.Setrlimit(syscall.RLIMIT_AS, &syscall.Rlimit{Cur: 16 << 30, Max: 16 << 30})
 	var wmu sync.Mutex
 	writeLine := func(v interface{}) {
 		b, _ := json.Marshal(v)
